@@ -95,6 +95,10 @@ func init() {
 		in.loopBound = int32(cint(in, args[0], "LoopBound"))
 		return nil
 	})
+	reg(RT+".SelectNondet", func(in *Interp, fr *frame, args []Value) Value {
+		in.hostState["selectnondet"] = args[0].(*Term).IsTrue()
+		return nil
+	})
 	reg(RT+".Symbolic", func(in *Interp, fr *frame, args []Value) Value { return in.tb.T })
 	reg(RT+".TempDir", func(in *Interp, fr *frame, args []Value) Value { return "/data" })
 	reg(RT+".Stub", func(in *Interp, fr *frame, args []Value) Value {
@@ -503,7 +507,10 @@ func init() {
 	chanHooks["model"] = func(in *Interp, ch *Chan, t types.Type, commit bool) (Value, bool) {
 		owner := ch.Data.(Iface)
 		rm := in.lookupMethod(owner.T, "Ready")
-		ready := in.callFunction(rm, []Value{owner.V}, nil, in.top).(*Term)
+		ready := in.tb.T
+		if _, committed := in.hostState["selectcommit"]; !committed {
+			ready = in.callFunction(rm, []Value{owner.V}, nil, in.top).(*Term)
+		}
 		if !in.Branch(ready) {
 			// A plain receive blocks until ready: the model's Wait() forces readiness.
 			wm := in.lookupMethod(owner.T, "Wait")
